@@ -201,7 +201,23 @@ def _gen_call(rng, kind: str, tier: str) -> dict:
     return {"op": "detpar"}
 
 
-def generate(rng, tier: str, i: int, prop: str) -> dict:
+def _sub_program(rng, tier: str, prop: str) -> dict:
+    """Another, small, fault-free program for a second builder writing its own in-memory file
+    in the same process (before the program under test, or interleaved with it)."""
+    for _ in range(6):
+        sub = generate(rng, tier, -1, prop, nested=True)
+        n_pix = max([c["pix"]["n"] for c in sub["calls"] if c["op"] in ("pix", "pix_bad")] or [0])
+        big = any(c["op"] == "dnd" and math.prod(c["meta"]["axes"]["n_bins"]) > 20000 for c in sub["calls"])
+        if n_pix <= 2000 and not big:
+            break
+    else:
+        sub["calls"] = [c for c in sub["calls"] if c["op"] in ("instrument", "sample", "detpar")]
+    sub.update(sink="mem", fname=None, faults={"mode": "none"}, prelude=None, reuse_builder=False,
+               recreate=False, permute_seed=None, preexist=None)
+    return sub
+
+
+def generate(rng, tier: str, i: int, prop: str, nested: bool = False) -> dict:
     kinds = ["pix", "instrument", "sample", "dnd", "detpar"]
     r = rng.random()
     if r < 0.25:
@@ -286,6 +302,14 @@ def generate(rng, tier: str, i: int, prop: str) -> dict:
         if sink == "path":
             scn["faults"] = {"mode": "fsize", "fracs": [rng.random() for _ in range(3)],
                              "tail": [rng.randrange(1, 4096)]}
+    if not nested:
+        if rng.random() < 0.15:
+            # a different builder writes a different file first, successfully
+            scn["predecessor"] = _sub_program(rng, tier, prop)
+        if small and rng.random() < 0.12:
+            # a second caller's whole create() lands between two lines of this create()
+            scn["interleave"] = {"frac": rng.random(), "other": _sub_program(rng, tier, prop),
+                                 "where": rng.choice(["line", "write"])}
     return scn
 
 
@@ -644,6 +668,10 @@ class SqwEngine(Engine):
 
         if scn.get("prelude"):
             self._prelude(scn, ctx)
+        if scn.get("predecessor"):
+            ctx.probe("another_file_written_first")
+            if not self._other_file(scn["predecessor"], ctx, "predecessor"):
+                return
 
         # ---- fault-free twin ------------------------------------------------
         sink = self._mk_sink(scn, ctx)
@@ -713,6 +741,10 @@ class SqwEngine(Engine):
                 self._judge_structure(scn, ctx, fin, buf2, d2, None, where="recreate")
                 ctx.probe("recreate_same_path")
 
+        # ---- a second caller's create() interleaved with this one -----------------
+        if scn.get("interleave"):
+            self._interleaved(scn, ctx, fin)
+
         # ---- fault family ---------------------------------------------------------
         mode = scn["faults"]["mode"]
         if mode == "enum_writes" and scn["sink"] == "mem":
@@ -722,6 +754,84 @@ class SqwEngine(Engine):
                                   scn["faults"].get("partial", 0.0), retry=scn["faults"].get("retry", True))
         elif mode in ("fsize", "fsize_k") and scn["sink"] == "path":
             self._fsize(scn, ctx, fin, dec, buf)
+
+    def _judge_other(self, oscn, ctx, buf, where):
+        fin_o = final_calls(oscn["calls"])
+        dec = ref_sqw.decode_file(buf)
+        self._judge_structure(oscn, ctx, fin_o, buf, dec, None, where=where)
+        if self.prop == "C13":
+            self._judge_content(oscn, ctx, fin_o, dec, where=where)
+
+    def _other_file(self, oscn, ctx, where) -> bool:
+        """Another builder writes another (in-memory) file; judged like any file."""
+        sink = seams.SimBytesIO(ctx=ctx)
+        exc = self._create(oscn, ctx, sink, label="create_" + where)
+        if exc is not None and exc.name == "_Unmodelable":
+            return False
+        if exc is not None:
+            ctx.violate("create_raised", f"[{where}] create() raised {exc}", kind="create_raised", exc=exc.name)
+            return False
+        self._judge_other(oscn, ctx, sink.getvalue(), where)
+        return True
+
+    def _interleaved(self, scn, ctx, fin):
+        """Two callers, two builders, two files: the second caller's whole create() runs at one
+        line boundary inside the first caller's create() (simulated thread switch; the line
+        ordinal comes from the scenario).  Both files must be what their own programs supplied."""
+        import scippneutron.io.sqw as sqw
+
+        other = scn["interleave"]["other"]
+        prefixes = (os.path.dirname(sqw.__file__) + os.sep,)
+        mem = dict(scn, sink="mem")
+        # counting pass: how many line events does this create() have?
+        at_write = scn["interleave"].get("where") == "write"
+        kind = "preempt_in_write" if at_write else "preempt_in_create"
+        counter = seams.Preemptor(prefixes, {})
+        csink = seams.SimBytesIO(ctx=ctx)
+        exc = counter.run(lambda: self._create(mem, ctx, csink, label="create_counting_pass"))
+        if exc is not None:
+            return
+        total = csink.sim_writes if at_write else counter.ordinal
+        at = min(total - 1, int(scn["interleave"]["frac"] * total)) if total else 0
+        ctx.fault_configured(kind)
+        sink_o = seams.SimBytesIO(ctx=ctx)
+        state = {}
+
+        def cb(frame):
+            where = "write" if at_write else f"{os.path.basename(frame.f_code.co_filename)}:{frame.f_code.co_name}"
+            ctx.log("preempt", where, at, total)
+            ctx.site("preempt@" + where)
+            state["exc"] = self._create(other, ctx, sink_o, label="create_other_caller")
+            state["ran"] = True
+
+        if at_write:
+            # this caller blocks in its at-th write(); the other caller's create() runs meanwhile
+            sink_m = seams.SimBytesIO(ctx=ctx, yield_at={at: cb})
+            exc = self._create(mem, ctx, sink_m, label="create_preempted")
+        else:
+            sink_m = seams.SimBytesIO(ctx=ctx)
+            exc = seams.Preemptor(prefixes, {at: cb}).run(lambda: self._create(mem, ctx, sink_m, label="create_preempted"))
+        if not state.get("ran"):
+            ctx.probe("preemption_point_not_reached")
+            return
+        ctx.fault_fired(kind)
+        ctx.probe("two_creates_interleaved")
+        if exc is not None:
+            ctx.violate("create_raised", f"[interleaved] create() raised {exc} when another caller's create() "
+                        f"ran at line event {at}/{total}", kind="interleaved_create_raised", exc=exc.name)
+            return
+        oexc = state.get("exc")
+        if oexc is not None and oexc.name != "_Unmodelable":
+            ctx.violate("create_raised", f"[interleaved] the other caller's create() raised {oexc}",
+                        kind="interleaved_create_raised", exc=oexc.name)
+            return
+        buf = sink_m.getvalue()
+        dec = ref_sqw.decode_file(buf)
+        self._judge_structure(mem, ctx, fin, buf, dec, None, where=f"interleaved (pre-empted at {at}/{total})")
+        if self.prop == "C13":
+            self._judge_content(mem, ctx, fin, dec, where="interleaved (pre-empted caller)")
+        if oexc is None:
+            self._judge_other(other, ctx, sink_o.getvalue(), "interleaved (pre-empting caller)")
 
     def _prelude(self, scn, ctx):
         """A different builder whose create() is expected to be refused because of its content."""
@@ -1601,6 +1711,22 @@ def _shrink(self, scn, violation=None):
         c = copy.deepcopy(s)
         c["preexist"] = None
         yield c
+    for key in ("predecessor", "interleave"):
+        if s.get(key):
+            c = copy.deepcopy(s)
+            del c[key]
+            yield c
+            sub = s[key] if key == "predecessor" else s[key]["other"]
+            for k in range(len(sub["calls"])):
+                c = copy.deepcopy(s)
+                del (c[key] if key == "predecessor" else c[key]["other"])["calls"][k]
+                yield c
+            if key == "interleave":
+                for fr in (0.0, 0.25, 0.5, 0.75):
+                    if abs(s[key]["frac"] - fr) > 1e-9:
+                        c = copy.deepcopy(s)
+                        c[key]["frac"] = fr
+                        yield c
     if s.get("path_as") == "str":
         c = copy.deepcopy(s)
         c["path_as"] = "Path"
